@@ -114,3 +114,12 @@ U("cJSON_AddItemReferenceToObject", "cjson", "harness/cJSON_AddItemReferenceToOb
 U("replace_item_in_object", "cjson", "harness/replace_item_in_object.c", enforce="replace_item_in_object", shape="U", props=["C06", "C07", "C08", "C14", "C20"], covers=5,
   defs=["-DVF_RVP_VIEW"], replace=["cJSON_strdup/cJSON_strdup_cv", "cJSON_free/cJSON_free_cv", "get_object_item/get_object_item_cv", "cJSON_ReplaceItemViaPointer"],
   note="aliasing precondition: the key argument may be the replacement's own key")
+
+# ---------------------------------------------------------------- cJSON.c : containers (skeleton units, children <= K)
+U("parse_array", "cjson", "harness/parse_array.c", enforce="parse_array", shape="S", bound="children <= 3", loops=True, expect_loop_obligations=1,
+  props=["C01", "C02", "C03", "C07", "C08", "C14", "C20"], covers=5, defs=["-DVF_CONTAINER_VIEWS"], unwindset=["parse_array.0:4"], bounded_loops=[r"parse_array.*\.unwind\."],
+  replace=["cJSON_New_Item/cJSON_New_Item_cv", "parse_value/parse_value_cv", "cJSON_Delete/cJSON_Delete_chain_cv"], timeout=(900, 3000),
+  note="element values arbitrary (recursive call replaced by its contract); only the element loop is cut at K")
+U("parse_object", "cjson", "harness/parse_object.c", enforce="parse_object", shape="S", bound="members <= 2", loops=True, expect_loop_obligations=1,
+  props=["C01", "C02", "C03", "C07", "C08", "C14", "C20"], covers=5, defs=["-DVF_CONTAINER_VIEWS"], unwindset=["parse_object.0:3"], bounded_loops=[r"parse_object.*\.unwind\."],
+  replace=["cJSON_New_Item/cJSON_New_Item_cv", "parse_string/parse_string_cv", "parse_value/parse_value_cv", "cJSON_Delete/cJSON_Delete_chain_cv"], timeout=(900, 3000))
